@@ -473,7 +473,7 @@ class Tensor(object):
                     ]
                 )
 
-            other.cores[0].data *= factor
+            other.cores[0] = other.cores[0] * factor  # Out of place: `factor` may be a 0-dim tensor that carries a graph
 
         if self.batch != other.batch:
             raise ValueError("Tensors with the same batch mode are supported")
